@@ -46,6 +46,9 @@ type Call struct {
 	createdCh chan struct{}
 	parkedCh  chan struct{}
 	heldCh    chan struct{}
+	heldCh2   chan struct{}
+	release2  chan struct{}
+	held2Once sync.Once
 	// hold points (C08): when set before Start, the handler blocks there until Release.
 	HoldAfterCreate bool
 	HoldAfterWatch  bool
@@ -58,7 +61,7 @@ type Call struct {
 func (w *World) newCall(kind, name string, md metadata.MD) *Call {
 	ctx, cancel := context.WithCancel(context.Background())
 	c := &Call{w: w, Kind: kind, Name: name, done: make(chan struct{}), createdCh: make(chan struct{}), parkedCh: make(chan struct{}),
-		heldCh: make(chan struct{}), release: make(chan struct{})}
+		heldCh: make(chan struct{}), release: make(chan struct{}), heldCh2: make(chan struct{}), release2: make(chan struct{})}
 	ctx = context.WithValue(ctx, callKey{}, c)
 	if md != nil {
 		ctx = metadata.NewIncomingContext(ctx, md)
@@ -110,9 +113,10 @@ func (w *World) nbWatch(ctx context.Context, ch chan<- configapi.TransactionEven
 		c.Watched = true
 		c.mu.Unlock()
 		if c.HoldAfterWatch {
-			c.heldOnce.Do(func() { close(c.heldCh) })
+			// the store's listener is registered; hold the handler before it receives anything
+			c.held2Once.Do(func() { close(c.heldCh2) })
 			select {
-			case <-c.release:
+			case <-c.release2:
 			case <-ctx.Done():
 			}
 		}
@@ -192,6 +196,20 @@ func (c *Call) Release() error {
 	return nil
 }
 
+// Release2 lets a handler held after Watch continue.
+func (c *Call) Release2() {
+	select {
+	case <-c.release2:
+	default:
+		close(c.release2)
+	}
+	select {
+	case <-c.done:
+	case <-c.parkedCh:
+	case <-time.After(30 * time.Second):
+	}
+}
+
 // Done reports whether the handler has returned.
 func (c *Call) Done() bool {
 	select {
@@ -223,6 +241,11 @@ func (c *Call) abort(why string) {
 	case <-c.release:
 	default:
 		close(c.release)
+	}
+	select {
+	case <-c.release2:
+	default:
+		close(c.release2)
 	}
 	c.Wait(10 * time.Second)
 }
